@@ -69,6 +69,16 @@ int forkRun(const std::function<int()>& fn, int seconds, std::string& why, size_
 	return 1;
 }
 
+static int g_markFd = -1;
+static int g_lastPhase = 0;
+void markPhase(int phase) {
+	if (g_markFd >= 0) {
+		uint64_t v = (uint64_t) phase;
+		if (pwrite(g_markFd, &v, sizeof v, 8) != (ssize_t) sizeof v) {}
+	}
+}
+int lastCrashPhase() { return g_lastPhase; }
+
 size_t runForkedCases(size_t n, const std::string& outPath, int secondsPerCase, const std::function<void(size_t, std::string&)>& fn,
 					  const std::function<void(size_t, const std::string&, FILE*)>& onCrash, size_t memLimitMB) {
 	size_t start = 0, crashes = 0;
@@ -93,6 +103,8 @@ size_t runForkedCases(size_t n, const std::string& outPath, int secondsPerCase, 
 				for (size_t i = start; i < n; i++) {
 					uint64_t v = i;
 					if (pwrite(mfd, &v, sizeof v, 0) != (ssize_t) sizeof v) { rc = 96; break; }
+					g_markFd = mfd;
+					markPhase(0);
 					alarm(secondsPerCase);
 					std::string buf;
 					fn(i, buf);          // a case's output reaches the file only when the case completed
@@ -123,6 +135,8 @@ size_t runForkedCases(size_t n, const std::string& outPath, int secondsPerCase, 
 			int mfd = open(markPath.c_str(), O_RDONLY);
 			if (mfd >= 0) {
 				if (read(mfd, &at, sizeof at) != (ssize_t) sizeof at) at = start;
+				uint64_t ph = 0;
+				if (pread(mfd, &ph, sizeof ph, 8) == (ssize_t) sizeof ph) g_lastPhase = (int) ph;
 				close(mfd);
 			}
 		}
